@@ -636,7 +636,15 @@ VMLoop:
 
 			if value == nil {
 				// module cache is empty, load the object from constants
-				vm.stack[vm.sp] = vm.constants[cidx]
+				obj := vm.constants[cidx]
+				if _, ok := obj.(*CompiledFunction); !ok {
+					// a builtin (Go) module is a shared constant: each VM
+					// gets its own deep copy of it
+					if v, ok := obj.(Copier); ok {
+						obj = v.Copy()
+					}
+				}
+				vm.stack[vm.sp] = obj
 				vm.sp++
 				// load module by putting true for subsequent OpJumpFalsy
 				// if module is a compiledFunction it will be called and result will be stored in module cache
@@ -654,15 +662,10 @@ VMLoop:
 			vm.ip += 4
 		case OpStoreModule:
 			midx := int(vm.curInsts[vm.ip+2]) | int(vm.curInsts[vm.ip+1])<<8
-			value := vm.stack[vm.sp-1]
-
-			if v, ok := value.(Copier); ok {
-				// store deep copy of the module if supported
-				value = v.Copy()
-				vm.stack[vm.sp-1] = value
-			}
-
-			vm.modulesCache[midx] = value
+			// the value is the private copy of a builtin module made by
+			// OpLoadModule or the object returned by a source module, which
+			// every import must share as it is
+			vm.modulesCache[midx] = vm.stack[vm.sp-1]
 			vm.ip += 2
 		case OpSetupTry:
 			vm.xOpSetupTry()
